@@ -2,7 +2,7 @@
    Only statements, `exact`, Print Assumptions and non-vacuity examples. *)
 From Coq Require Import List Bool Arith Reals Lra Sorted.
 Import ListNotations.
-From PS Require Import Num RLemmas Valid ModelKernels ModelFuncs ModelAPI Spec SyncDefs Lem_IsiProps Lem_Transform Lem_Transform2 Lem_API Lem_WF Lem_API2 Lem_API3 Lem_API4 Lem_API5 Lem_API6 Lem_API7 Lem_API8 Lem_API10.
+From PS Require Import Num RLemmas Valid ModelKernels ModelFuncs ModelAPI Spec SyncDefs Lem_IsiProps Lem_Transform Lem_Transform2 Lem_API Lem_WF Lem_API2 Lem_API3 Lem_API4 Lem_API5 Lem_API6 Lem_API7 Lem_API8 Lem_API10 Lem_API11.
 Require Import PS.Props.PropTac.
 Local Open Scope R_scope.
 
@@ -600,6 +600,74 @@ Theorem C08_bi_scalars_mirror_auto : forall eps cy nrm mt ri a b ts te,
     = rmap Ropp (spike_directionality ROps eps cy false nrm mt m a b).
 Proof. exact bi_scalars_mirror_auto. Qed.
 Print Assumptions C08_bi_scalars_mirror_auto.
+
+(* ---- from Lem_API11.v ---- *)
+Theorem C08_pwc_avrg_mirror : forall ts te P iv, Lem_WF.good_pwc ts te P -> iv_ok ts te iv ->
+  pwc_avrg ROps (mirror_pwc ts te P) (iv_of (mirror_iv ts te iv)) = pwc_avrg ROps P (iv_of iv).
+Proof. exact pwc_avrg_mirror. Qed.
+Print Assumptions C08_pwc_avrg_mirror.
+Theorem C08_pwl_avrg_mirror : forall ts te P iv, Lem_WF.good_pwl ts te P -> iv_ok ts te iv ->
+  pwl_avrg ROps (mirror_pwl ts te P) (iv_of (mirror_iv ts te iv)) = pwl_avrg ROps P (iv_of iv).
+Proof. exact pwl_avrg_mirror. Qed.
+Print Assumptions C08_pwl_avrg_mirror.
+Theorem C08_df_integral_mirror : forall ts te f iv, Lem_WF.good_df ts te f -> iv_ok ts te iv ->
+  df_integral ROps (mirror_df ts te f) (iv_of (mirror_iv ts te iv)) = df_integral ROps f (iv_of iv).
+Proof. exact df_integral_mirror. Qed.
+Print Assumptions C08_df_integral_mirror.
+Theorem C08_isi_distance_mirror_iv : forall eps cy m iv a b ts te,
+  vtrain ts te a -> vtrain ts te b -> iv_ok ts te iv ->
+  isi_distance_bi ROps eps cy false m (mirror_iv ts te iv) (mirror_tr a) (mirror_tr b)
+  = isi_distance_bi ROps eps cy false m iv a b.
+Proof. exact isi_distance_mirror_iv. Qed.
+Print Assumptions C08_isi_distance_mirror_iv.
+Theorem C08_spike_distance_mirror_iv : forall eps cy m ri iv a b ts te,
+  vtrain ts te a -> vtrain ts te b -> iv_ok ts te iv ->
+  spike_distance_bi ROps eps cy false m ri (mirror_iv ts te iv) (mirror_tr a) (mirror_tr b)
+  = spike_distance_bi ROps eps cy false m ri iv a b.
+Proof. exact spike_distance_mirror_iv. Qed.
+Print Assumptions C08_spike_distance_mirror_iv.
+Theorem C08_spike_sync_mirror_iv : forall eps cy mt m iv a b ts te,
+  vtrain ts te a -> vtrain ts te b -> iv_ok ts te iv ->
+  spike_sync_bi ROps eps cy false mt m (mirror_iv ts te iv) (mirror_tr a) (mirror_tr b)
+  = spike_sync_bi ROps eps cy false mt m iv a b.
+Proof. exact spike_sync_mirror_iv. Qed.
+Print Assumptions C08_spike_sync_mirror_iv.
+Theorem C08_isi_multi_mirror_iv_idx : forall eps cy m iv l idx ts te,
+  Forall (vtrain ts te) l -> iv_ok ts te iv ->
+  isi_distance_multi ROps eps cy false m (mirror_iv ts te iv) (map mirror_tr l) idx
+  = isi_distance_multi ROps eps cy false m iv l idx.
+Proof. exact isi_multi_mirror_iv_idx. Qed.
+Print Assumptions C08_isi_multi_mirror_iv_idx.
+Theorem C08_spike_multi_mirror_iv_idx : forall eps cy m ri iv l idx ts te,
+  Forall (vtrain ts te) l -> iv_ok ts te iv ->
+  spike_distance_multi ROps eps cy false m ri (mirror_iv ts te iv) (map mirror_tr l) idx
+  = spike_distance_multi ROps eps cy false m ri iv l idx.
+Proof. exact spike_multi_mirror_iv_idx. Qed.
+Print Assumptions C08_spike_multi_mirror_iv_idx.
+Theorem C08_sync_multi_mirror_iv_idx : forall eps cy mt m iv l idx ts te,
+  Forall (vtrain ts te) l -> iv_ok ts te iv ->
+  spike_sync_multi ROps eps cy false mt m (mirror_iv ts te iv) (map mirror_tr l) idx
+  = spike_sync_multi ROps eps cy false mt m iv l idx.
+Proof. exact sync_multi_mirror_iv_idx. Qed.
+Print Assumptions C08_sync_multi_mirror_iv_idx.
+Theorem C08_isi_matrix_mirror_iv : forall eps cy m iv l idx ts te,
+  Forall (vtrain ts te) l -> iv_ok ts te iv ->
+  isi_distance_matrix ROps eps cy false m (mirror_iv ts te iv) (map mirror_tr l) idx
+  = isi_distance_matrix ROps eps cy false m iv l idx.
+Proof. exact isi_matrix_mirror_iv. Qed.
+Print Assumptions C08_isi_matrix_mirror_iv.
+Theorem C08_spike_matrix_mirror_iv : forall eps cy m ri iv l idx ts te,
+  Forall (vtrain ts te) l -> iv_ok ts te iv ->
+  spike_distance_matrix ROps eps cy false m ri (mirror_iv ts te iv) (map mirror_tr l) idx
+  = spike_distance_matrix ROps eps cy false m ri iv l idx.
+Proof. exact spike_matrix_mirror_iv. Qed.
+Print Assumptions C08_spike_matrix_mirror_iv.
+Theorem C08_sync_matrix_mirror_iv : forall eps cy mt m iv l idx ts te,
+  Forall (vtrain ts te) l -> iv_ok ts te iv ->
+  spike_sync_matrix ROps eps cy false mt m (mirror_iv ts te iv) (map mirror_tr l) idx
+  = spike_sync_matrix ROps eps cy false mt m iv l idx.
+Proof. exact sync_matrix_mirror_iv. Qed.
+Print Assumptions C08_sync_matrix_mirror_iv.
 
 Example C08_nonvacuous : valid 0 1 [1/4; 5/8; 1] /\ valid 0 1 [0] /\ valid 0 1 (mirror_train 0 1 [1/4; 5/8; 1]).
 Proof. split; [valid_tac|split; [valid_tac|]]. apply valid_mirror. valid_tac. Qed.
